@@ -134,14 +134,15 @@ def c19():
     tier, seed = tier_seed()
     t0 = time.time()
     gh = build_harness()
-    exp = export_cases(0, "GrlValues.tla", "MCCompare.cfg")
+    exp = export_cases(0, "GrlValues.tla", "MCCompare.cfg" if tier == "quick" else "MCCompareFull.cfg")
     log("C19: %d cases exported by TLC" % exp["n"])
     stats, mms, lines = replay_all(gh, "cmp-replay", exp, chunks=8)
     violations, unrep, _ = report("C19", tier, seed, gh, "cmp-replay", mms,
                                   key_of=lambda m: (m["case"]["fam"], m["case"].get("lk"), m["case"].get("rk"), m["op"], m["route"].split()[0]),
                                   case_of=lambda m: m["line"])
     cov = {"states": exp["distinct"], "transitions": exp["generated"], "traces_validated_against_impl": exp["n"],
-           "model": "GrlValues.tla / MCCompare.cfg: whole finite domain, laws of Six(Cmp) checked as ASSUME",
+           "model": "GrlValues.tla / %s: whole finite domain (thorough: plain / pointer / interface on both sides), laws of Six(Cmp) checked as ASSUME"
+                    % ("MCCompare.cfg" if tier == "quick" else "MCCompareFull.cfg"),
            "evaluations": stats.get("operator_applications", 0) + stats.get("grl_interface", 0) + stats.get("grl_typed", 0),
            "distinct_nontrivial": exp["n"], "exhaustive": True, "replay": stats,
            "rule": "case = ordered pair of operand forms (kind x plain/pointer/interface, or time form) x pair of boundary values both kinds hold exactly; "
